@@ -55,6 +55,7 @@ STRUCTS = {
     'C': {'name': 'flux', 'cols': [['lval', 'long'], ['sval', 'short'], ['farr', 'float[2]'], ['larr', 'long[2]']]},
     'D': {'name': 'MyStruct', 'cols': [['names', 'char[2][4]'], ['free', 'char[2][]'], ['color', 'COLORS']]},
     'E': {'name': 'T', 'cols': [['flux', 'float'], ['label', 'char[6]'], ['one', 'long[1]']]},
+    'F': {'name': 'BC', 'cols': [['n', 'int'], ['w', 'char[4]']]},       # an ENDING of the name ABC
 }
 ROWS = {   # two row sets per struct
     'A': [[[2147483647, 0.5, 'a b', -0.0]],                       # zed: a column holding only zeros, one of them negative
@@ -66,10 +67,11 @@ ROWS = {   # two row sets per struct
            [0, -1, [float('nan'), 0.1], [-(2 ** 53 + 1), 0]]]],
     'D': [[[['ab', ''], ['a long one', 'q'], 'GREEN_X']],
           [[['', 'a#b'], ['', "it's"], 'B'], [['abcd', 'a;b'], ['a{b', 'zz zz'], 'RED'], [['b', 'a'], ['abcdefgh', 'z'], 'B']]],
+    'F': [[[7, 'bc']], [[-1, ''], [0, 'a b']]],
     'E': [[[0.25, 'a{b}c', [7]]],
           [[3.4028234663852886e+38, 'trail ', [-9223372036854775808]], [-1.5, 'a\tb', [2 ** 53 + 1]]]],
 }
-COMBOS = [['A'], ['B'], ['C'], ['D'], ['E'], ['A', 'B'], ['B', 'A'], ['C', 'E'], ['E', 'C'], ['A', 'D'], ['D', 'C']]
+COMBOS = [['A'], ['B'], ['C'], ['D'], ['E'], ['A', 'B'], ['B', 'A'], ['C', 'E'], ['E', 'C'], ['A', 'D'], ['D', 'C'], ['B', 'F'], ['F', 'B']]
 PAIRS = [[], [['mjd', '54579'], ['enum', 'not a typedef'], ['struct', 'a b;c']], [['alpha', 'beta gamma  delta'], ['semi', 'a;b c'], ['Empty', '']],
          [['x', '1.5'], ['path', '/a/b_c.par']]]
 
